@@ -37,3 +37,6 @@ func WireGetPayloadLengthHeader(buf []byte) (uint64, error) {
 func WireGetTypeHeader(buf []byte) (object.Type, error) {
 	return iobject.GetTypeHeader(buf)
 }
+
+// WireNonPayloadFieldsBufferLength is [iobject.NonPayloadFieldsBufferLength].
+const WireNonPayloadFieldsBufferLength = iobject.NonPayloadFieldsBufferLength
